@@ -43,8 +43,8 @@ def run(R):
     R.validate("Trace_J2T", tr1, reset_events=("Desc",), timeout=3000, sticky="Desc")
     R.validate("Trace_J2TResume", tr1, reset_events=("Desc",), timeout=3000)
     tr2 = os.path.join(R.scratch, "c02-b.ndjson")
-    n = 700 if q else 30000
-    caps = "" if q else "caps=" + ",".join(str(i) for i in list(range(0, 70)) + [100, 127, 128, 255, 256, 1000, 4095, 4096, 4097])
+    n = 700 if q else 4000
+    caps = "" if q else "caps=" + ",".join(str(i) for i in list(range(0, 40)) + [63, 64, 65, 100, 127, 128, 255, 256, 1000, 4095, 4096, 4097])
     R.drive("c02", "out=" + tr2, "n=%d" % n, "seed=%d" % R.seed, "prop=c02", *( [caps] if caps else []), timeout=3000)
     with open(tr2) as f:
         for i, ln in enumerate(f):
